@@ -459,8 +459,18 @@ func (c *controller) resume(ctx context.Context, prompter string, lifecycleLockH
 		// If we're already connected, then there's nothing we need to do. We
 		// don't even need to mark the session as unpaused because it can't be
 		// marked as paused if an existing synchronization loop is running (we
-		// enforce this invariant as part of the controller's logic).
+		// enforce this invariant as part of the controller's logic). However,
+		// a previous resume operation may have failed to persist the unpaused
+		// state to disk (while still starting the synchronization loop), so we
+		// save the session again to ensure that the on-disk state agrees with
+		// the state that we're reporting.
 		if connected {
+			c.stateLock.Lock()
+			saveErr := encoding.MarshalAndSaveProtobuf(c.sessionPath, c.session)
+			c.stateLock.UnlockWithoutNotify()
+			if saveErr != nil {
+				return fmt.Errorf("unable to save session: %w", saveErr)
+			}
 			return nil
 		}
 
